@@ -39,6 +39,7 @@ class FnSpec:
         self.derefs = []            # (ident, op): R9 explicit deref of a reference operand of a bit operator
         self.r12 = False            # X.iter().any(c) -> vx_any(X.as_slice(), c)
         self.r12map = {}            # receiver text -> helper name for X.into_iter().filter(c).collect()
+        self.closure_keys = None    # expected parameter keys of all closures of the function, in order (alignment)
 
 
 class ItemSpec:
@@ -69,6 +70,7 @@ class UnitSpec:
         self.floor = 0
         self.kind = "bin"
         self.extconsts = []         # (path text, type, value): associated consts of external types (R10)
+        self.constmod = None        # (module path, file): where the R10 helpers live (default: the prelude module)
 
 
 def parse_vspec(path):
@@ -96,6 +98,9 @@ def parse_vspec(path):
         elif kw == "feature": u.features.append(rest)
         elif kw == "prelude": u.prelude = rest
         elif kw == "floor": u.floor = int(rest)
+        elif kw == "constmod":
+            a = rest.split()
+            u.constmod = (a[0], a[1])
         elif kw == "extconst":
             a = rest.split()
             # extconst <path as written in the code> <type> <value> [<path resolvable from the prelude module>]
@@ -137,6 +142,8 @@ def parse_vspec(path):
             cur_fn.derefs.append((a, b))
         elif kw == "r12":
             cur_fn.r12 = True
+        elif kw == "closures":
+            cur_fn.closure_keys = [k.strip() for k in rest.split(";")]
         elif kw == "r12map":
             a, b = rest.split()
             cur_fn.r12map[a] = b
@@ -191,6 +198,31 @@ def find_subseq(toks, lo, hi, anchor_text):
     return out
 
 
+def closure_key(toks, c, src):
+    """parameter names of a closure (types dropped), e.g. 'a', '( f , m )', '' for ||"""
+    if c.bar1 == c.bar2:
+        return ""
+    out = []
+    depth = 0
+    skip = False
+    for k in range(c.bar1 + 1, c.bar2):
+        t = toks[k]
+        if t.kind in ("ws", "comment"):
+            continue
+        if t.kind == "punct" and t.text in ("(", "[", "<"):
+            depth += 1
+        elif t.kind == "punct" and t.text in (")", "]", ">"):
+            depth -= 1
+        if depth == 0 and t.kind == "punct" and t.text == ":":
+            skip = True
+            continue
+        if depth == 0 and t.kind == "punct" and t.text == ",":
+            skip = False
+        if not skip:
+            out.append(t.text)
+    return " ".join(out)
+
+
 class Edits:
     def __init__(self, src):
         self.src = src
@@ -222,6 +254,12 @@ class Edits:
         return "".join(out)
 
 
+def prev_sig_idx(toks, k):
+    while k >= 0 and toks[k].kind in ("ws", "comment"):
+        k -= 1
+    return k
+
+
 def split_sections(raw):
     """split raw contract lines into (requires_lines, other_lines) by leading keyword"""
     req, rest = [], []
@@ -238,6 +276,8 @@ def split_sections(raw):
 # ------------------------------------------------------------------ generation
 
 EXTCONSTS = []
+CONSTMOD = "crate::vx_prelude"
+UNIT = None
 
 
 def extconst_name(path):
@@ -277,10 +317,25 @@ def process_fn(toks, it, fs: FnSpec, qual, ed: Edits, log, unit_in_trait_impl):
     # closures
     if fs.closures:
         cl = find_closures(toks, lo, hi)
+        amap = {n: n - 1 for n in range(1, len(cl) + 1)}      # expected ordinal -> actual index
+        if fs.closure_keys is not None:
+            import difflib
+            actual = [closure_key(toks, c, src) for c in cl]
+            sm = difflib.SequenceMatcher(a=fs.closure_keys, b=actual, autojunk=False)
+            amap = {}
+            for blk in sm.get_matching_blocks():
+                for d in range(blk.size):
+                    amap[blk.a + d + 1] = blk.b + d
         for n, (hdr, raw) in sorted(fs.closures.items()):
-            if n > len(cl):
-                raise LostAnchor(f"{qual}: closure {n} not found ({len(cl)} closures)")
-            c = cl[n - 1]
+            if n not in amap or amap[n] >= len(cl):
+                # the annotated closure is gone (deleted or its parameters renamed): the annotation is dropped;
+                # a pure deletion does not weaken the proof of what remains, a rename does
+                exp = len(fs.closure_keys) if fs.closure_keys is not None else n
+                log.setdefault("lost_closures", []).append({"fn": qual, "closure": n, "degrades_proof": len(cl) >= exp})
+                if fs.closure_keys is None:
+                    raise LostAnchor(f"{qual}: closure {n} not found ({len(cl)} closures)")
+                continue
+            c = cl[amap[n]]
             # hdr: "(o: &Output) -> (b: bool)"  => |o: &Output| -> (b: bool)
             depth = 0
             endp = -1
@@ -303,6 +358,53 @@ def process_fn(toks, it, fs: FnSpec, qual, ed: Edits, log, unit_in_trait_impl):
                 ed.insert(toks[c.body_last].end, " }", prio=-9)
             log["rewrites"].append({"rule": "RC", "fn": qual, "before": old, "after": head,
                                     "note": "closure parameter types / named result / contract added; body kept verbatim"})
+    # R8 (automatic): let-chains  `if A && let P = E && B { body }`  (no else)  ->  nested ifs, Rust's own desugaring
+    k = lo
+    while k < hi:
+        t = toks[k]
+        if t.kind == "ident" and t.text == "if":
+            # condition tokens up to the body '{' at depth 0
+            j = k + 1
+            ands = []
+            has_let = False
+            body_open = None
+            while j < hi:
+                tj = toks[j]
+                if tj.kind in ("ws", "comment"):
+                    j += 1
+                    continue
+                if tj.kind == "punct" and tj.text in ("(", "["):
+                    j = match_close(toks, j) + 1
+                    continue
+                if tj.kind == "ident" and tj.text == "let":
+                    has_let = True
+                if tj.kind == "punct" and tj.text == "&&":
+                    ands.append(j)
+                    j += 1
+                    continue
+                if tj.kind == "punct" and tj.text == "||":
+                    ands = []
+                    has_let = False
+                    break
+                if tj.kind == "punct" and tj.text == "{":
+                    # struct literals are not allowed unparenthesised in conditions: this is the body
+                    body_open = j
+                    break
+                if tj.kind == "punct" and tj.text in (";", "}"):
+                    break
+                j += 1
+            if body_open is not None and has_let and ands:
+                body_close = match_close(toks, body_open)
+                nx = next_sig(toks, body_close + 1, hi)
+                if nx is not None and toks[nx].kind == "ident" and toks[nx].text == "else":
+                    raise LostAnchor(f"{qual}: R8: let-chain with else is not supported")
+                for a in ands:
+                    ed.replace(toks[a].pos, toks[a].end, "{ if")
+                ed.insert(toks[body_close].end, " }" * len(ands), prio=-7)
+                log["rewrites"].append({"rule": "R8", "fn": qual, "before": "if A && let P = E && B { .. }",
+                                        "after": "if A { if let P = E { if B { .. } } }", "count": len(ands)})
+                k = body_open
+        k += 1
     # R15 (automatic, before R10): matches!(E, C1 | C2 | ..) whose alternatives are all listed constants
     #      ->  { let __vxm = E; __vxm == C1 || __vxm == C2 || .. }   (constants cannot be patterns once they are calls)
     if EXTCONSTS:
@@ -333,7 +435,7 @@ def process_fn(toks, it, fs: FnSpec, qual, ed: Edits, log, unit_in_trait_impl):
                         if alts and all(a in cnames for a in alts):
                             e_txt = src[toks[n2].end:toks[comma].pos].strip()
                             cmap = {" ".join(t.text for t in tokenize(c[0]) if t.kind not in ("ws", "comment")):
-                                    "crate::vx_prelude::" + extconst_name(c[0]) + "()" for c in EXTCONSTS}
+                                    CONSTMOD + "::" + extconst_name(c[0]) + "()" for c in EXTCONSTS}
                             new = "({ let __vxm = " + e_txt + "; " + " || ".join(f"__vxm == {cmap[a]}" for a in alts) + " })"
                             ed.replace(toks[k].pos, toks[close].end, new)
                             log["rewrites"].append({"rule": "R15", "fn": qual, "before": src[toks[k].pos:toks[close].end][:120],
@@ -349,13 +451,26 @@ def process_fn(toks, it, fs: FnSpec, qual, ed: Edits, log, unit_in_trait_impl):
                 pv -= 1
             if toks[pv].kind == "punct" and toks[pv].text == "::":
                 continue  # part of a longer path
-            ed.replace(toks[a].pos, toks[b].end, "crate::vx_prelude::" + extconst_name(cpath) + "()")
+            ed.replace(toks[a].pos, toks[b].end, CONSTMOD + "::" + extconst_name(cpath) + "()")
         if occ:
             log["rewrites"].append({"rule": "R10", "fn": qual, "before": cpath, "after": extconst_name(cpath) + "()", "count": len(occ)})
     # R3 (automatic): closure parameters that are patterns / `_`
     cl_all = find_closures(toks, lo, hi)
+    annotated_actual = set()
+    if fs.closures:
+        if fs.closure_keys is not None:
+            import difflib
+            actual_k = [closure_key(toks, c, src) for c in cl_all]
+            sm2 = difflib.SequenceMatcher(a=fs.closure_keys, b=actual_k, autojunk=False)
+            m2 = {}
+            for blk in sm2.get_matching_blocks():
+                for d in range(blk.size):
+                    m2[blk.a + d + 1] = blk.b + d
+            annotated_actual = {m2[n] + 1 for n in fs.closures if n in m2}
+        else:
+            annotated_actual = set(fs.closures)
     for ci, c in enumerate(cl_all, 1):
-        if ci in fs.closures or c.bar1 == c.bar2:
+        if ci in annotated_actual or c.bar1 == c.bar2:
             continue
         # split params at top-level commas
         params = []
@@ -775,6 +890,8 @@ def gen_file(ws, fsx: FileSpec, log):
             extra.append((e, "\n" + twin_text(gtxt, fnit.name, name, fs, raw) + "\n"))
     for pos_, text in sorted(extra, key=lambda x: -x[0]):
         out = out[:pos_] + text + out[pos_:]
+    if UNIT is not None and UNIT.constmod and UNIT.constmod[1] == fsx.path and UNIT.extconsts:
+        out += "\n" + consts_text(UNIT)
     if fsx.append:
         out += "\nverus! {\n/*@vx:begin APPEND*/\n" + "\n".join(fsx.append) + "\n/*@vx:end APPEND*/\n} // verus!\n"
     open(path, "w").write(out)
@@ -813,12 +930,31 @@ def _angle_depth_zero(toks, lo, k):
     return d == 0
 
 
+def consts_text(u):
+    t = ""
+    for cpath, cty, cval, full in u.extconsts:
+        if cval != "-":
+            t += f"const _: () = assert!({full} == {cval}); // R10: value checked at compile time against the real constant\n"
+    t += "verus! {\n"
+    for cpath, cty, cval, full in u.extconsts:
+        if cval == "-":
+            # opaque constant: the spec only knows it is one fixed value
+            t += (f"pub uninterp spec fn {extconst_name(cpath)}_spec() -> {cty};\n"
+                  f"#[verifier::external_body]\npub const fn {extconst_name(cpath)}() -> (r: {cty})\n    ensures r == {extconst_name(cpath)}_spec(),\n{{ {full} }}\n")
+        else:
+            t += (f"#[verifier::external_body]\npub const fn {extconst_name(cpath)}() -> (r: {cty})\n    ensures r == {cval},\n{{ {full} }}\n")
+    t += "} // verus!\n"
+    return t
+
+
 def main():
     spec_path, ws, out_map = sys.argv[1:4]
     u = parse_vspec(spec_path)
-    global EXTCONSTS
+    global EXTCONSTS, CONSTMOD, UNIT
+    UNIT = u
     EXTCONSTS = u.extconsts
-    log = {"unit": u.unit, "functions": [], "rewrites": [], "lost_hints": [], "files": []}
+    CONSTMOD = u.constmod[0] if u.constmod else "crate::vx_prelude"
+    log = {"unit": u.unit, "functions": [], "rewrites": [], "lost_hints": [], "lost_closures": [], "files": []}
     try:
         for f in u.files:
             log["files"].append(gen_file(ws, f, log))
@@ -838,20 +974,8 @@ def main():
                 pp = os.path.join(specdir, os.path.basename(frag))
                 name = os.path.splitext(os.path.basename(frag))[0]
                 ptxt += f"pub mod {name} {{\n" + open(pp).read() + f"\n}}\npub use {name}::*;\n"
-            if u.extconsts:
-                ptxt += "pub mod vx_consts {\nuse vstd::prelude::*;\n"
-                for cpath, cty, cval, full in u.extconsts:
-                    if cval != "-":
-                        ptxt += f"const _: () = assert!({full} == {cval}); // R10: value checked at compile time against the real constant\n"
-                ptxt += "verus! {\n"
-                for cpath, cty, cval, full in u.extconsts:
-                    if cval == "-":
-                        # opaque constant: the spec only knows it is one fixed value
-                        ptxt += (f"pub uninterp spec fn {extconst_name(cpath)}_spec() -> {cty};\n"
-                                 f"#[verifier::external_body]\npub const fn {extconst_name(cpath)}() -> (r: {cty})\n    ensures r == {extconst_name(cpath)}_spec(),\n{{ {full} }}\n")
-                    else:
-                        ptxt += (f"#[verifier::external_body]\npub const fn {extconst_name(cpath)}() -> (r: {cty})\n    ensures r == {cval},\n{{ {full} }}\n")
-                ptxt += "} // verus!\n}\npub use vx_consts::*;\n"
+            if u.extconsts and not u.constmod:
+                ptxt += "pub mod vx_consts {\nuse vstd::prelude::*;\n" + consts_text(u) + "}\npub use vx_consts::*;\n"
             dst = os.path.join(os.path.dirname(rootp), "vx_prelude.rs")
             open(dst, "w").write(ptxt)
             root += "\n#[allow(unused_imports, dead_code, unused_variables, non_snake_case)]\npub mod vx_prelude;\n"
